@@ -4,6 +4,7 @@
 //
 // usage: d_mssm <mode> <casefile> <tracefile>        (seed from VERIF_SEED)
 #include "models.hpp"
+#include "gm2_verif.hpp"
 
 #include <fstream>
 #include <iostream>
@@ -277,6 +278,100 @@ void run_c04(const std::vector<std::vector<std::string>>& cases, vt::Rng& rng)
    }
 }
 
+
+#ifdef GM2CALC_VERIF
+// sink for the guarded hooks of the conversion (src/gm2_verif.hpp): one trace event per hook
+std::string g_hook_case;
+void hook_sink(const char* name, const double* v, int n)
+{
+   vt::Ev ev("Hook");
+   ev.str("case", g_hook_case).str("name", name).nums("v", v, v + n);
+   ev.emit();
+}
+#endif
+
+// ---- C05 -------------------------------------------------------------------------------
+// case line: <id> <ordering> <admix> <signs> <tbclass> <prec> <maxit>
+//   ordering  LR (ml2 < me2) | RL | close (within 3 %)       order of the smuon soft masses
+//   admix     small | large                                  size of the smuon mixing (via Ae(2,2) - mu tb)
+//   signs     signs of (mu, M1, M2), e.g. pmp
+//   prec      exponent e: precision goal 10^-e ;  maxit: max_iterations
+void run_c05(const std::vector<std::vector<std::string>>& cases, vt::Rng& rng)
+{
+   for (const auto& c : cases) {
+      const std::string& id = c.at(0);
+      const std::string &ord = c.at(1), &admix = c.at(2), &sg = c.at(3), &tbc = c.at(4);
+      const double prec = std::pow(10.0, -std::stod(c.at(5)));
+      const unsigned maxit = std::stoul(c.at(6));
+      auto sgn = [&](int i) { return sg.at(i) == 'm' ? -1.0 : 1.0; };
+      MssmPt p = vm::random_mssm(rng, 100, 3000, 2, 60);
+      p.TB = tbc == "low" ? rng.uni(2, 5) : tbc == "high" ? rng.uni(40, 60) : rng.uni(5, 40);
+      p.Mu = sgn(0) * std::fabs(p.Mu); p.M1 = sgn(1) * std::fabs(p.M1); p.M2 = sgn(2) * std::fabs(p.M2);
+      const double a = rng.logu(100, 3000);
+      const double b = ord == "close" ? a * rng.uni(0.97, 1.03) : a * rng.uni(1.15, 3.0);
+      const double mL = ord == "RL" ? b : a, mR = ord == "RL" ? a : b;
+      p.ml2[1] = mL * mL; p.me2[1] = mR * mR;
+      if (admix == "large") p.Ae[1] = rng.sign() * rng.logu(2e3, 2e4);
+      const std::string sig = ord + "/" + admix + "/" + sg + "/" + tbc + "/p" + c.at(5) + "/it" + c.at(6);
+      // the on-shell point and its spectrum
+      Built A = build(p);
+      vt::Ev ev("Conv");
+      ev.str("case", id).str("sig", sig).num("goal", prec).i("maxit", long(maxit)).str("excA", A.exc);
+      if (!A.exc.empty()) { ev.str("exc", "").emit(); continue; }
+      // SLHA-type model: pole spectrum of A, initial guesses perturbed by up to 5 %
+      MSSMNoFV_onshell B;
+      MssmPt q = p;
+      auto pert = [&](double x) { return x * (1 + rng.uni(-0.05, 0.05)); };
+      q.Mu = pert(p.Mu); q.M1 = pert(p.M1); q.M2 = pert(p.M2); q.ml2[1] = pert(p.ml2[1]); q.me2[1] = pert(p.me2[1]);
+#ifdef GM2CALC_VERIF
+      g_hook_case = id;
+      vt::Ev("ConvStart").str("case", id).str("sig", sig).num("goal", prec).i("maxit", long(maxit)).emit();
+      gm2calc::verif::sink() = hook_sink;
+#endif
+      std::string exc = vm::exc_class([&] {
+         vm::apply(B, q);
+         B.set_BMu(A.model.get_BMu());
+         auto& ph = B.get_physical();
+         ph.MChi = A.model.get_MChi(); ph.ZN = A.model.get_ZN();
+         ph.MCha = A.model.get_MCha(); ph.UM = A.model.get_UM(); ph.UP = A.model.get_UP();
+         ph.MSvmL = A.model.get_MSvmL();
+         ph.MSm = A.model.get_MSm(); ph.ZM = A.model.get_ZM();
+         ph.MAh = A.model.get_MAh();
+         B.convert_to_onshell(prec, maxit);
+      });
+#ifdef GM2CALC_VERIF
+      gm2calc::verif::sink() = nullptr;
+      ev.b("hooks", true);
+#else
+      ev.b("hooks", false);
+#endif
+      ev.str("exc", exc);
+      if (exc.empty()) {
+         const auto& ph = B.get_physical();
+         NV o;
+         vm::push_mat(o, "MCha", B.get_MCha()); vm::push_mat(o, "pMCha", ph.MCha);
+         vm::push_mat(o, "MChi", B.get_MChi()); vm::push_mat(o, "pMChi", ph.MChi);
+         vm::push_cmat(o, "ZN", B.get_ZN()); vm::push_cmat(o, "pZN", ph.ZN);
+         o.push_back({"MSvmL", B.get_MSvmL()}); o.push_back({"pMSvmL", ph.MSvmL});
+         vm::push_mat(o, "MSm", B.get_MSm()); vm::push_mat(o, "pMSm", ph.MSm); vm::push_mat(o, "ZM", B.get_ZM());
+         o.push_back({"Mu", B.get_Mu()}); o.push_back({"M1", B.get_MassB()}); o.push_back({"M2", B.get_MassWB()});
+         o.push_back({"ml2", B.get_ml2(1, 1)}); o.push_back({"me2", B.get_me2(1, 1)});
+         o.push_back({"Mu0", p.Mu}); o.push_back({"M10", p.M1}); o.push_back({"M20", p.M2});
+         o.push_back({"ml20", p.ml2[1]}); o.push_back({"me20", p.me2[1]});
+         o.push_back({"amuA", calculate_amu_1loop(A.model) + calculate_amu_2loop(A.model)});
+         o.push_back({"amuB", calculate_amu_1loop(B) + calculate_amu_2loop(B)});
+         o.push_back({"pZM00", ph.ZM(0, 0)}); o.push_back({"pZM01", ph.ZM(0, 1)});
+         ev.raw("o", vm::named_json(o));
+         const auto& pr = B.get_problems();
+         ev.b("warn", pr.have_warning()).b("warnMu", pr.no_Mu_MassB_MassWB_convergence()).b("warnMe2", pr.no_me2_convergence())
+           .b("problem", pr.have_problem())
+           .num("precMu", pr.get_Mu_MassB_MassWB_convergence_problem().precision)
+           .num("precMe2", pr.get_me2_convergence_problem().precision);
+      }
+      ev.emit();
+   }
+}
+
 } // namespace
 
 int main(int argc, char** argv)
@@ -291,6 +386,7 @@ int main(int argc, char** argv)
    else if (mode == "c06") run_c06(cases, rng);
    else if (mode == "c07") run_c07(cases, rng);
    else if (mode == "c04") run_c04(cases, rng);
+   else if (mode == "c05") run_c05(cases, rng);
    else { std::fprintf(stderr, "unknown mode %s\n", mode.c_str()); return 2; }
    vt::flush_trace();
    return 0;
